@@ -153,7 +153,7 @@ def check_C01(ctx):
     th = ctx.thorough()
     jobs = grid_jobs(ctx, "TestC01", CONFIGS, 13 if th else 4, 2400 if th else 200)
     return dict(level="exploration", jobs=jobs,
-                rule="full product storage mode x zstd implementation x 13 write paths x sizes on block/chunk edges x content kind x corruption kind (data, declared size, declared hash, framing, compressor, abort), each cell with fresh digests through the real HTTP/gRPC handlers; non-trivial = distinct (path, corruption, size, content) cells that were accepted or rejected with the post-conditions checked",
+                rule="full product storage mode x zstd implementation x 13 write paths x sizes on block/chunk edges x content kind x corruption kind (data, declared size, declared hash, framing, compressor, abort), each cell with fresh digests through the real HTTP/gRPC handlers; after a complete zstd frame 1-9 stray zero bytes or a further frame cut at 1-9 bytes; non-trivial = distinct (path, corruption, size, content) cells that were accepted or rejected with the post-conditions checked",
                 assumptions=["in-process servers (httptest recorder / bufconn), the same handlers main() wires up",
                              "blob contents are deterministic pseudo-random or mostly-zero bytes selected by VERIF_SEED; the enumerated grid does not depend on the seed",
                              "FetchBlob origins are loopback httptest servers"])
@@ -217,7 +217,7 @@ def check_C06(ctx):
     if unfixed["errors"] == 0:
         raise V.Broken("Spin finds no violation in the unrepaired model variant: the model cannot express the defect")
     return dict(level="exploration", jobs=jobs, extra_cov=extra,
-                rule="every ActionResult shape of a bounded grammar (0-2 output files each digest-only/inline/empty-blob; output directory with Tree variants incl. children and a nil digest; stdout/stderr digest nil/set/empty) x every assignment of {present, absent, stored with another size} (or {present, absent, backend only} with a backend) to its <=5 (7 thorough) referenced blobs, x gRPC GetActionResult, HTTP GET and HEAD; 25 output files with each single one absent (across the batch of 20); recency after a hit; non-trivial = distinct (shape, assignment) cells",
+                rule="every ActionResult shape of a bounded grammar (0-2 output files each digest-only/inline/empty-blob; output directory with Tree variants incl. children and a nil digest; stdout/stderr digest nil/set/empty) x every assignment of {present, absent, stored with another size} (or {present, absent, backend only} with a backend) to its <=5 (7 thorough) referenced blobs, x gRPC GetActionResult, HTTP GET and HEAD; 25 output files with each single one absent (across the batch of 20); recency after a hit; aliasing: every ordered pair of reference slots naming the same stored blob (hit), the same hash with size+1 / size-1 in either order (miss), the same absent digest (miss); non-trivial = distinct (shape, assignment) cells",
                 assumptions=["AC entries are stored directly through the disk layer (UpdateActionResult does not check dependencies either)",
                              "the backend is a scriptable cache.Proxy; the fail-fast join with a backend is additionally model-checked (E5) and its trails replayed"])
 
@@ -241,7 +241,7 @@ def check_C11(ctx):
     g = ctx.bin(GRID)
     jobs = [Job(g, "TestC11", name="C11:" + mode, timeout=1200, env={"VERIF_PARAM_MODE": mode, "GOMAXPROCS": "4"}) for mode in ("zstd", "uncompressed")]
     return dict(level="exploration", jobs=jobs,
-                rule="message grammar: a fully populated valid ActionResult and four further valid shapes, plus one invalid field of each kind (empty/absolute path, empty target, nil digest, empty element, negative size, short/upper-case/non-hex/empty hash) at every position where it can occur (output files, output directories, the three symlink lists, stdout/stderr digests) x 5 encodings (gRPC, HTTP protobuf, HTTP JSON, each also zstd-wrapped); validation disabled; all 8 inline-request combinations x stdout size {small, exactly the 3 MiB budget, over it}; alternating overwrites through all encodings with invalid uploads in between; non-trivial = distinct (message, encoding) cells accepted or rejected with the post-conditions checked",
+                rule="message grammar: a fully populated valid ActionResult and four further valid shapes, plus one invalid field of each kind (empty/absolute path, empty target, nil digest, empty element, negative size, short/upper-case/non-hex/empty hash) at every position where it can occur (output files, output directories, the three symlink lists, stdout/stderr digests) x 5 encodings (gRPC, HTTP protobuf, HTTP JSON, each also zstd-wrapped); validation disabled; all 8 inline-request combinations x stdout size {small, exactly the 3 MiB budget, over it}; alternating overwrites through all encodings with invalid uploads in between; execution metadata: every subset of {worker, queued/completed timestamps, virtual duration, auxiliary metadata}; each optional part of the full message dropped alone; non-trivial = distinct (message, encoding) cells accepted or rejected with the post-conditions checked",
                 assumptions=["nil elements of repeated fields cannot be put on the wire by the protobuf runtime; empty elements stand in for them",
                              "an empty output-directory path is valid (REAPI: the working directory itself)"])
 
@@ -272,10 +272,10 @@ def check_C14(ctx):
     g = ctx.bin(GRID)
     jobs = []
     for mode in ("zstd", "uncompressed"):
-        for part in ("digests", "names", "http", "writes"):
+        for part in ("digests", "names", "http", "writes", "space"):
             jobs.append(Job(g, "TestC14", name="C14:%s/%s" % (part, mode), timeout=2400, env={"VERIF_PARAM_MODE": mode, "VERIF_PARAM_PART": part, "GOMAXPROCS": "4"}))
     return dict(level="exploration", jobs=jobs,
-                rule="small-scope structural enumeration through the real handlers: 12 digest shapes (nil, empty, present, absent, empty blob, negative / huge size, four malformed hashes, zero size with a hash) at every digest position of every gRPC request type (pairs for SpliceBlob), FetchBlob uri x qualifier shapes, stored blobs (9 Directory, 5 Tree, 4 ActionResult shapes incl. nil digests and garbage) read back through GetTree / GetActionResult / HTTP; all token sequences up to length 4 (5 thorough) over 14 resource-name tokens for ByteStream.Read (x offsets, limits), Write and QueryWriteStatus; 21 URL paths x 9 HTTP methods; PUT header products (size header x encoding x content type x content length); all ByteStream.Write message sequences up to length 3 over 9 message kinds with a client abort after every prefix; non-trivial = distinct cells that completed",
+                rule="small-scope structural enumeration through the real handlers: 12 digest shapes (nil, empty, present, absent, empty blob, negative / huge size, four malformed hashes, zero size with a hash) at every digest position of every gRPC request type (pairs for SpliceBlob), FetchBlob uri x qualifier shapes, stored blobs (9 Directory, 5 Tree, 4 ActionResult shapes incl. nil digests and garbage) read back through GetTree / GetActionResult / HTTP; all token sequences up to length 4 (5 thorough) over 14 resource-name tokens for ByteStream.Read (x offsets, limits), Write and QueryWriteStatus; 21 URL paths x 9 HTTP methods; PUT header products (size header x encoding x content type x content length); all ByteStream.Write message sequences up to length 3 over 9 message kinds with a client abort after every prefix; uploads refused for lack of space through every write path (larger than max_size / space held by other requests' reservations / SpliceBlob whose chunks fit but whose result does not) x hard limit on/off with the leak oracle after every cell; non-trivial = distinct cells that completed",
                 assumptions=["bounded-exhaustive over message shapes and token sequences (small-scope hypothesis), not byte-level fuzzing",
                              "gRPC handler panics are caught by the harness's interceptor and reported (the real server has no recovery: a panic there terminates the process)",
                              "leaks: goroutines inside repository request code, reserved bytes, directory==index and open descriptors are compared with the baseline every 64 cells and at the end; waits are by state with a 20 s cap"])
@@ -287,7 +287,7 @@ def check_C15(ctx):
     jobs = [Job(g, "TestC15", name="C15:instances/" + mode, timeout=1200, env={"VERIF_PARAM_MODE": mode, "GOMAXPROCS": "4"}) for mode in ("zstd", "uncompressed")]
     jobs += e2cache_jobs(ctx, "C15", 4 if th else 3, 1500 if th else 100, 8 if th else 2, proxies=("0",))
     return dict(level="model_checking", jobs=jobs,
-                rule="explicit-state BFS over operation sequences on a real disk cache in which the CAS, AC and RAW key spaces collide on ONE hash (uploads good and failing, overwrites, evictions, lookups, zstd reads), compared with three independent reference maps on every transition; plus the full product of 12 instance names (empty, nested, containing ac/cas/blobs/uploads segments, unicode, spaces, case, trailing slash) x store via gRPC or HTTP x read via gRPC or HTTP under every instance name x mangling on/off x HTTP validation on/off",
+                rule="explicit-state BFS over operation sequences on a real disk cache in which the CAS, AC and RAW key spaces collide on ONE hash (uploads good and failing, overwrites, evictions, lookups, zstd reads), compared with three independent reference maps on every transition; plus the full product of 12 instance names (empty, nested, containing ac/cas/blobs/uploads segments, unicode, spaces, case, trailing slash) x store via gRPC or HTTP x read via gRPC or HTTP under every instance name x mangling on/off x HTTP validation on/off; server level: every HTTP action-cache lookup repeated by a client that accepts zstd (must answer identically, never compressed); one hash stored as CAS blob, validated and raw action result in six orders",
                 assumptions=E2_ASSUME + ["instance names without leading/trailing slash (REAPI-conformant); an HTTP path with an empty segment is redirected by net/http before it reaches the handler"])
 
 
@@ -297,7 +297,7 @@ def check_C16(ctx):
     jobs = [Job(g, "TestC16", name="C16:%s#%d" % (mode, sh), timeout=1200, env={"VERIF_PARAM_MODE": mode, "VERIF_SHARD": "%d/%d" % (sh, shards), "GOMAXPROCS": "4"})
             for mode in ("zstd", "uncompressed") for sh in range(shards)]
     return dict(level="exploration", jobs=jobs,
-                rule="ByteStream.Write streams over the real handler: {identity, zstd} x blob present/absent x finish_write {last, none, on the first of several messages} x later resource names {omitted, repeated, changed} x first write_offset {0,1} x declared size {n, n-1, n+1} plus six resource-name shapes; for the base variants ALL compositions of a 6-byte payload into 1..4 (5 thorough) messages incl. empty ones, for deviating variants a spread; each followed by FindMissingBlobs and QueryWriteStatus; non-trivial = distinct (variant, composition) cells",
+                rule="ByteStream.Write streams over the real handler: {identity, zstd} x blob present/absent x finish_write {last, none, on the first of several messages} x later resource names {omitted, repeated, changed} x first write_offset {0,1} x declared size {n, n-1, n+1} plus six resource-name shapes; for the base variants ALL compositions of a 6-byte payload into 1..4 (5 thorough) messages incl. empty ones, for deviating variants a spread; each followed by FindMissingBlobs and QueryWriteStatus; blob present only in a proxy backend x backend reports exact / unknown (-1) size x identity/zstd x all compositions into <=3 messages x complete / first-message-only stream; non-trivial = distinct (variant, composition) cells",
                 assumptions=["through the real gRPC server over bufconn with the real client stream API",
                              "the interleaving of the handler's three goroutines is whatever the runtime picks; the oracle only contains outcomes that do not depend on it"])
 
@@ -375,7 +375,7 @@ def check_C09(ctx):
     jobs = [Job(b, "TestVfC09", name="C09#%d" % i, timeout=budget + 120,
                 env={"VERIF_SHARD": "%d/%d" % (i, shards), "VERIF_BUDGET_S": str(budget), "GOMAXPROCS": "2"}) for i in range(shards)]
     return dict(level="exploration", jobs=jobs,
-                rule="exhaustive over a grammar of directory populations: every single entry, every ordered pair and (representative / all) ordered triples over 10 layout-kinds (v2 zstd CAS, v2 .v1 CAS, v2 AC, v2 RAW, legacy flat and two-level cas/ac/raw) with size patterns over {1 B, 1 block, 3 blocks}, atime rank = position; plus lost+found/.DS_Store at every level and duplicate files for one key; x max_size in {total+1 block, total, total-1 block, largest-1 block, 1 block} x storage mode after restart; real disk.New on each; non-trivial = distinct (kind multiset, max_size class, mode, survivors) combinations",
+                rule="exhaustive over a grammar of directory populations: every single entry, every ordered pair and (representative / all) ordered triples over 10 layout-kinds (v2 zstd CAS, v2 .v1 CAS, v2 AC, v2 RAW, legacy flat and two-level cas/ac/raw) with size patterns over {1 B, 1 block, 3 blocks}, atime rank = position; plus lost+found/.DS_Store at every level and duplicate files for one key; x max_size in {total+1 block, total, total-1 block, largest-1 block, 1 block} x storage mode after restart; real disk.New on each; access times only 1 ns / 1 us / 300 us / 7 ms apart: four same-kind entries in all 24 orders relative to their names; non-trivial = distinct (kind multiset, max_size class, mode, survivors) combinations",
                 assumptions=["file access times are set explicitly with Chtimes, one hour apart (no ties)",
                              "reference: file-level simulation of 'evict oldest atime first; a file larger than max_size is dropped and displaces nothing'",
                              "duplicates are checked with a max_size that needs no eviction"])
